@@ -96,8 +96,37 @@ def run_fault(pr, fault, vcs, dry_first, set_version):
     return case, None
 
 
+def rejected_below_tag_case(cur, tag, sv, pattern="MAJOR.MINOR.PATCH"):
+    """the config is BEHIND the newest tag (a checkout of an older branch / tags fetched without pulling) and --set-version names a version
+    between the two: "the new version is rejected" — non-zero exit, every file keeps its bytes, nothing is committed or tagged.  The pairs
+    used differ in their digit count (0.9.0 / 0.10.0), so a comparison of the TEXTS instead of the versions gets it wrong."""
+    case = {"kind": "set-version-below-newest-tag", "current": cur, "tag": tag, "set_version": sv, "pattern": pattern}
+    cfg = ('[bumpver]\ncurrent_version = "%s"\nversion_pattern = "%s"\ncommit = true\ntag = true\npush = false\n'
+           '[bumpver.file_patterns]\n"bumpver.toml" = [\'current_version = "{version}"\']\n"ver.txt" = ["{version}"]\n' % (cur, pattern))
+    with sandbox.Project("c06t") as p:
+        p.write_text("bumpver.toml", cfg)
+        p.write_text("ver.txt", "version %s here\n" % cur)
+        p.add_fake_vcs("git")
+        p.fake_set("branches", "* main 1a2b3c4 msg\n")
+        p.fake_set("tags", cur + "\n" + tag + "\n")
+        before = p.snapshot()
+        code, out, exc = sandbox.run_cli(["update", "--no-fetch", "--set-version", sv], p.dir, p.env())
+        after = p.snapshot()
+        log = p.fake_log()
+    muts = [a[1] for a in log if len(a) > 1 and a[1] in ("add", "commit", "push") or (len(a) > 1 and a[1] == "tag" and a[2:3] != ["--list"])]
+    case.update(exit=code, mutating=muts)
+    if code == 0 or after != before or muts:
+        return case, "--set-version %s is below the newest tag %s (config %s) and must be rejected: exit %s, changed %r, VCS %r" % (
+            sv, tag, cur, code, rwcommon.diff_files(before, after), muts)
+    return case, None
+
+
 def run(chk, driver, tier):
     rng = chk.rng
+    for cur, tag, sv in [("0.9.0", "0.10.0", "0.9.5"), ("1.9.9", "1.10.0", "1.9.10"), ("2.99.0", "2.100.3", "2.100.0"), ("9.0.0", "10.0.0", "9.5.0")]:
+        case, verdict = rejected_below_tag_case(cur, tag, sv)
+        chk.count("rejected-below-tag")
+        chk.oracle_case(case, verdict)
     # the COMPOSED model of `bumpver update` for LEGACY patterns (Model/UpdateV1.lean, theorems Props/UpdateV1.lean) against the real CLI
     import props.updfull_v1 as updfull_v1
     updfull_v1.run(chk, driver, 250 if tier == "thorough" else 25)
@@ -161,4 +190,9 @@ def search(chk, driver, tier):
 
 
 def replay(payload):
+    case = payload.get("case") or {}
+    if case.get("kind") == "set-version-below-newest-tag":
+        return rejected_below_tag_case(case["current"], case["tag"], case["set_version"], case.get("pattern", "MAJOR.MINOR.PATCH"))[1]
+    if case.get("kind") == "legacy-e2e":
+        return "re-run ./check C06 with VERIF_SEED=%s (legacy end-to-end case; the files and patterns are in the replay file)" % payload.get("seed")
     return "re-run ./check C06 with VERIF_SEED=%s" % payload.get("seed")
